@@ -6,9 +6,8 @@
    (i1, j, i3);  get a t  is the t-th entry of the flat array a;  Sum n F = F 0 + ... + F (n-1);
    bins_ok pindex nbin: every index < nbin and every bin non-empty (what the constructors check);
    rho_ok: the member counts are non-zero IN THE FIELD (automatic in characteristic 0, see
-   C10_counts_nonzero_Qc);  dvol_ok: sizes positive, volume factors non-zero, per-pixel volume
-   tables of the right length;  specs_ok d specs: each analysed sub-domain, in analysis order, is
-   present, has a scalar volume and a valid binning. *)
+   C10_counts_nonzero_Qc);  specs_ok d specs: each analysed sub-domain, in analysis order, is
+   present, has a non-zero scalar volume and a valid binning. *)
 From Coq Require Import List Arith Bool Field.
 Import ListNotations.
 Require Import NV.C10.Model NV.C10.Proofs.
@@ -49,9 +48,10 @@ Theorem C10_adjointness :
     = dot R r0 radd rmul (pre * nbin * post) (dist_adjoint R r0 radd pre n post nbin pindex y) x.
 Proof. intros R r0 r1 radd rmul rsub ropp rdiv rinv F. exact (adjointness R r0 r1 radd rmul rsub ropp rdiv rinv F). Qed.
 
-(* One analysed sub-domain s (scalar volume pdvol) inside ANY product domain dpre ++ s :: dpost
-   whose other sub-domains carry arbitrary non-zero scalar or per-pixel volumes:
-   _single_power_analyze = weight(1) -> adjoint distributor -> weight(-1) returns the bin MEAN,
+(* One analysed sub-domain s (scalar volume pdvol <> 0) inside ANY product domain dpre ++ s :: dpost
+   (the other sub-domains are arbitrary: scalar, per-pixel or no volume factors at all -- they are
+   not weighted, fixes/C10-3.patch):
+   _single_power_analyze = weight(1, idx) -> adjoint distributor -> weight(-1, idx) returns the bin MEAN,
    (sum over the members of bin b) / (number of members), on the domain with s replaced by the
    power space. *)
 Theorem C10_analyze_mean :
@@ -60,8 +60,7 @@ Theorem C10_analyze_mean :
     field_theory r0 r1 radd rmul rsub ropp rdiv rinv eq ->
     forall dpre s dpost pdvol pindex nbin x i1 b i3,
     sdv s = Scalar pdvol -> length pindex = ssize s ->
-    bins_ok pindex nbin -> rho_ok R r0 r1 radd pindex nbin ->
-    dvol_ok R r0 dpre -> dvol_ok R r0 dpost -> pdvol <> r0 ->
+    bins_ok pindex nbin -> rho_ok R r0 r1 radd pindex nbin -> pdvol <> r0 ->
     length x = prodsz (dpre ++ s :: dpost) ->
     i1 < prodsz dpre -> b < nbin -> i3 < prodsz dpost ->
     exists y,
@@ -83,7 +82,7 @@ Theorem C10_analyze_exact :
          (rdiv : R -> R -> R) (rinv : R -> R),
     field_theory r0 r1 radd rmul rsub ropp rdiv rinv eq ->
     forall specs d p,
-    dvol_ok R r0 d -> specs_ok R r0 r1 radd rmul d specs ->
+    specs_ok R r0 r1 radd rmul d specs ->
     length p = prodsz (doms_after R r0 r1 radd rmul d specs) ->
     analyze_spaces R r0 r1 radd rmul rinv d specs (distribute_spaces R r0 r1 radd rmul d specs p)
     = Some (doms_after R r0 r1 radd rmul d specs, p).
@@ -95,7 +94,7 @@ Theorem C10_power_analyze_exact_real :
          (rdiv : R -> R -> R) (rinv : R -> R),
     field_theory r0 r1 radd rmul rsub ropp rdiv rinv eq ->
     forall d specs a p,
-    specs <> [] -> dvol_ok R r0 d -> specs_ok R r0 r1 radd rmul d specs ->
+    specs <> [] -> specs_ok R r0 r1 radd rmul d specs ->
     length p = prodsz (doms_after R r0 r1 radd rmul d specs) ->
     sq R rmul a = distribute_spaces R r0 r1 radd rmul d specs p ->
     power_analyze R r0 r1 radd rmul rinv d specs false (FReal a)
@@ -108,7 +107,7 @@ Theorem C10_power_analyze_exact_complex :
          (rdiv : R -> R -> R) (rinv : R -> R),
     field_theory r0 r1 radd rmul rsub ropp rdiv rinv eq ->
     forall d specs re im p,
-    specs <> [] -> dvol_ok R r0 d -> specs_ok R r0 r1 radd rmul d specs ->
+    specs <> [] -> specs_ok R r0 r1 radd rmul d specs ->
     length p = prodsz (doms_after R r0 r1 radd rmul d specs) ->
     vadd R radd (sq R rmul re) (sq R rmul im) = distribute_spaces R r0 r1 radd rmul d specs p ->
     power_analyze R r0 r1 radd rmul rinv d specs false (FCplx re im)
@@ -185,7 +184,7 @@ Example C10_hyps_satisfiable :
   let d := [sp_scalar 2 (1 # 2); sp_scalar 4 (1 # 4)] in
   let specs := [(1, ([0; 1; 2; 1], 3))] in
   let p := qcs [1#1; 4#1; 9#1; 16#1; 25#1; 36#1]%Q in
-  dvol_ok Qc 0%Qc d /\ specs_ok Qc 0%Qc 1%Qc Qcplus Qcmult d specs /\
+  specs_ok Qc 0%Qc 1%Qc Qcplus Qcmult d specs /\
   length p = prodsz (doms_after Qc 0%Qc 1%Qc Qcplus Qcmult d specs) /\
   eq_list (distribute_spaces Qc 0%Qc 1%Qc Qcplus Qcmult d specs p)
           (qcs [1#1; 4#1; 9#1; 4#1; 16#1; 25#1; 36#1; 25#1]%Q) = true /\
@@ -197,9 +196,8 @@ Example C10_hyps_satisfiable :
 Proof.
   assert (B : bins_ok [0; 1; 2; 1] 3).
   { split; [repeat constructor|]. intros [|[|[|b]]] Hb; vm_compute; try discriminate; lia. }
-  split; [|split; [|split; [|split]]].
-  - repeat constructor; simpl; discriminate.
-  - simpl. split; [reflexivity|]. split; [exact B|]. split; [apply rho_ok_Qc; exact B|]. split; [lia|exact I].
+  split; [|split; [|split]].
+  - simpl. split; [discriminate|]. split; [reflexivity|]. split; [exact B|]. split; [apply rho_ok_Qc; exact B|]. split; [lia|exact I].
   - reflexivity.
   - vm_compute. reflexivity.
   - vm_compute. reflexivity.
